@@ -12,6 +12,8 @@ import (
 
 	sgbucket "github.com/couchbase/sg-bucket"
 	"github.com/couchbaselabs/rosmar"
+
+	"verifsim/vfs"
 )
 
 func runtimeStack(buf []byte) int { return runtime.Stack(buf, false) }
@@ -62,8 +64,18 @@ type Program struct {
 	NoLin        bool       `json:"nolin,omitempty"`
 	NoFeedOracle bool       `json:"nofeedoracle,omitempty"`
 	// E3 (crash) programs: -1 = enumerate every I/O boundary, otherwise the one crash point to run
-	CrashAt int  `json:"crashat,omitempty"`
-	Torn    bool `json:"torn,omitempty"`
+	CrashAt int `json:"crashat,omitempty"`
+	// disk faults injected through the VFS shim into on-disk sequential runs
+	Faults []FaultSpec `json:"faults,omitempty"`
+	Torn   bool        `json:"torn,omitempty"`
+}
+
+// FaultSpec plants one disk fault: before operation AtOp starts, a one-shot fault of the given
+// kind is armed Offset mutating I/O calls (or, for busy, lock calls) ahead.
+type FaultSpec struct {
+	AtOp   int `json:"atop"`
+	Kind   int `json:"kind"`
+	Offset int `json:"offset"`
 }
 
 type RunStats struct {
@@ -74,6 +86,7 @@ type RunStats struct {
 	SimSeconds  float64        `json:"sim_seconds"`
 	Shape       string         `json:"shape,omitempty"`
 	CrashPoints int            `json:"crash_points,omitempty"`
+	Faults      map[string]int `json:"faults,omitempty"`
 }
 
 type RunResult struct {
@@ -236,6 +249,7 @@ func (e *e1) run() {
 	start := time.Now()
 	rosmar.VerifResetProcess()
 	rosmar.VerifSetClock(nil)
+	vfs.Reset()
 	rosmar.MaxDocSize = 20 * 1024 * 1024
 	if p.MaxDoc > 0 {
 		rosmar.MaxDocSize = p.MaxDoc
@@ -286,7 +300,9 @@ func (e *e1) run() {
 	for i := range p.Ops {
 		e.step = i
 		op := &p.Ops[i]
-		if v := e.doOp(op); v != nil {
+		v := e.doOp(op)
+		vfs.ClearFaults() // a planned fault that this step did not reach is dropped, it never leaks into the next step
+		if v != nil {
 			e.res.Violation = v
 			break
 		}
@@ -359,8 +375,21 @@ func (e *e1) doOp(op *Op) *Violation {
 			e.names[k] = true
 		}
 	}
+	firedBefore := e.armFaults()
 	r := Exec(ds, bucket, op, nowUnix(), &e.ctx)
+	vfs.ClearFaults()
 	synctest.Wait()
+	if kind := e.faultFired(firedBefore); kind != "" && ioFailure(&r) {
+		// An injected disk fault made this call fail. The relaxation is exactly this: the call may
+		// return an error; then the document, the feeds and everything else must be unchanged.
+		e.logf("#%d %s -> failed under injected %s   [%s unchanged]", e.step, op, kind, d.State())
+		e.probe("fault.op-failed:" + kind)
+		if v := e.checkLive(op, StepOut{OK: true, Next: d}); v != nil {
+			v.Tags = append(v.Tags, "C01")
+			return v
+		}
+		return e.readBack(op, "body", true)
+	}
 	out := Step(d, op, &r, e.env)
 	cell := fmt.Sprintf("%s|%s|%s", d.State(), op.Kind, orOK(r.Err))
 	e.res.Stats.Cells[cell]++
@@ -716,13 +745,21 @@ func (e *e1) doPurge(op *Op) *Violation {
 			}
 		}
 	}
+	firedBefore := e.armFaults()
 	r := Exec(nil, e.w.Handles[0], op, nowUnix(), &e.ctx)
+	vfs.ClearFaults()
 	synctest.Wait()
 	e.logf("#%d Purge -> %s count=%d (want %d)", e.step, r, r.Count, want)
-	if r.Err != "" {
+	if kind := e.faultFired(firedBefore); kind != "" && ioFailure(&r) {
+		e.probe("fault.op-failed:" + kind)
+		want = -1 // failed under an injected disk fault: nothing may have been purged
+	}
+	if want == -1 {
+		// fall through to the read-back of everything against the unchanged model
+	} else if r.Err != "" {
 		return e.violate([]string{"C05"}, "purge.error", "step %d: PurgeTombstones failed: %s", e.step, r.ErrText)
 	}
-	if r.Count != want {
+	if want >= 0 && r.Count != want {
 		return e.violate([]string{"C05"}, "purge.count", "step %d: PurgeTombstones removed %d documents, the bucket holds %d tombstones", e.step, r.Count, want)
 	}
 	if want > 0 {
@@ -730,7 +767,7 @@ func (e *e1) doPurge(op *Op) *Violation {
 	}
 	for ci, docs := range e.docs {
 		for k, d := range docs {
-			if d.Exists && !d.HasBody {
+			if want >= 0 && d.Exists && !d.HasBody {
 				delete(docs, k)
 			}
 			_ = ci
@@ -1011,4 +1048,53 @@ func (e *e1) doRecreateColl(op *Op) *Violation {
 	e.res.Stats.NonTrivial = true
 	e.probe("collection.recreated")
 	return nil
+}
+
+// armFaults plants the faults planned for the current step; returns the fired-counters before.
+func (e *e1) armFaults() [5]int64 {
+	var before [5]int64
+	if !e.p.OnDisk {
+		return before
+	}
+	for k := 1; k <= 4; k++ {
+		before[k] = vfs.Fired(k)
+	}
+	for _, f := range e.p.Faults {
+		if f.AtOp == e.step {
+			if f.Kind == vfs.Busy {
+				vfs.AddFault(vfs.LockOrdinal()+int64(f.Offset), f.Kind)
+			} else {
+				vfs.AddFault(vfs.Ordinal()+int64(f.Offset), f.Kind)
+			}
+		}
+	}
+	return before
+}
+
+func (e *e1) faultFired(before [5]int64) string {
+	if !e.p.OnDisk {
+		return ""
+	}
+	for k := 1; k <= 4; k++ {
+		if n := vfs.Fired(k) - before[k]; n > 0 {
+			if e.res.Stats.Faults == nil {
+				e.res.Stats.Faults = map[string]int{}
+			}
+			e.res.Stats.Faults[vfs.KindNames[k]] += int(n)
+			return vfs.KindNames[k]
+		}
+	}
+	return ""
+}
+
+// ioFailure: did the call fail because of the storage (as opposed to a semantic refusal)?
+func ioFailure(r *Res) bool {
+	if r.Err == EDB {
+		return true
+	}
+	if r.Err == EOther || r.Err == EClosed {
+		t := strings.ToLower(r.ErrText)
+		return strings.Contains(t, "disk i/o") || strings.Contains(t, "disk is full") || strings.Contains(t, "database is locked") || strings.Contains(t, "sqlite")
+	}
+	return false
 }
